@@ -233,6 +233,7 @@ W_PREFIX_RULES = [
 DROP_ATTR_RX = re.compile(r'^\s*#\[(inline|allow\(|doc|must_use|cfg_attr)[^\n]*\]\s*$')
 
 
+NO_LOOP_ISOLATION = True
 FORCE_SIG = set()   # items ('module::fn') whose body cannot be spliced / is rejected by the front end: emitted by signature only
 EXTRA_FNS = {}     # repo-relative source path -> [function names] (filled by the driver on 'cannot find function')
 
@@ -413,7 +414,13 @@ class Emitter:
 
         sup = lambda t: Chunk(t, 'support', item=item)
 
-        for at in f.attrs:
+        attrs = list(f.attrs)
+        # every function with annotated loops is verified WITHOUT loop isolation: facts established before a loop
+        # (e.g. a local introduced by a refactoring) stay visible inside it, which keeps the proofs robust against
+        # harmless edits; loop `ensures` clauses are then neither allowed nor needed
+        if f.mode == 'body' and f.loops and NO_LOOP_ISOLATION and not any('loop_isolation' in a_ for a_ in attrs):
+            attrs.append('#[verifier::loop_isolation(false)]')
+        for at in attrs:
             self.add(at + '\n')
         if f.rename:
             nm = re.compile(r'\bfn\s+(' + re.escape(f.name) + r')\b').match(m, fn_kw)
@@ -499,7 +506,7 @@ class Emitter:
                 inv.append(sup('\n        invariant_except_break\n'))
                 for tag, t in L.invariant_except_break:
                     inv.append(Chunk('            %s,\n' % t.strip(), 'clause', tag=tag, item=item))
-            if L.ensures:
+            if L.ensures and not (NO_LOOP_ISOLATION or any('loop_isolation' in a_ for a_ in f.attrs)):
                 inv.append(sup('\n        ensures\n'))
                 for tag, t in L.ensures:
                     inv.append(Chunk('            %s,\n' % t.strip(), 'clause', tag=tag, item=item))
